@@ -94,6 +94,8 @@ class ModelTie:
                     chk.count("model:" + type(node).__name__)
                 except nm.Unmodelled as e:
                     chk.count("unmodelled:" + str(e)[:60])
+                except nm.StructureChanged as e:
+                    chk.tie_break("names-model-structure", {"node": type(node).__name__, "why": str(e)})
                 except Exception as e:  # noqa: BLE001
                     chk.count("unmodelled:raises:" + type(e).__name__)
         self.programs_in_case += 1
@@ -238,6 +240,163 @@ def probe_pairs(chk, tie, da):
                           signature={"class": "node-name-collision", "cls": type(a.expr).__name__, "via": label})
 
 
+def near_miss_families(chk, tie, da):
+    """families of API calls that differ in ONE ingredient (chunk boundaries with the same block count, an index label, an
+    axis, a keyword ...), all alive together: whenever two members share a name they must have the same shape, chunks,
+    dtype and values.  Every member also goes through the fingerprints and the Coq name model."""
+    import itertools
+    import operator
+    from dask_array._expr import ArrayExpr
+    xn = np.arange(16.0).reshape(4, 4)
+    vn = np.array([10.0, 20.0, 30.0, 40.0])
+    x = da.from_array(xn, chunks=(2, 2))
+    x13 = da.from_array(xn, chunks=((1, 3), (2, 2)))
+    v = da.from_array(vn, chunks=2)
+    w = da.from_array(np.arange(12.0), chunks=4)
+
+    def add_col(block, vec):
+        return block + vec[:, None]
+
+    def sc(b, k=1.0):
+        return b * k
+
+    fams = {}
+    for seed in (3, 4):
+        for ctor_name, ctor in (("default_rng", da.random.default_rng), ("RandomState", da.random.RandomState)):
+            for dist, kw in (("random" if ctor_name == "default_rng" else "random_sample", {}), ("normal", {"loc": 1.0}), ("normal", {"loc": 2.0}),
+                             ("uniform", {})):
+                fams.setdefault(f"random:{ctor_name}:{dist}", []).extend(
+                    (f"seed={seed},{kw},chunks={c}", (lambda ctor=ctor, seed=seed, dist=dist, kw=kw, c=c: getattr(ctor(seed), dist)(size=(10,), chunks=c, **kw)))
+                    for c in (((5, 5),), ((6, 4),), ((4, 6),), ((10,),), ((3, 3, 4),), ((4, 3, 3),)))
+            fams.setdefault(f"random2d:{ctor_name}", []).extend(
+                (f"seed={seed},chunks={c}", (lambda ctor=ctor, seed=seed, c=c: ctor(seed).normal(size=(4, 6), chunks=c)))
+                for c in (((2, 2), (3, 3)), ((1, 3), (3, 3)), ((2, 2), (2, 4)), ((4,), (1, 2, 3)), ((4,), (3, 2, 1)), ((2, 2), (6,))))
+    fams["blockwise:index-labels"] = [
+        ("x:ij,v:i", lambda: da.blockwise(add_col, "ij", x, "ij", v, "i", dtype="f8")),
+        ("x:ij,v:j", lambda: da.blockwise(add_col, "ij", x, "ij", v, "j", dtype="f8")),
+        ("x:ij,x:ij", lambda: da.blockwise(operator.add, "ij", x, "ij", x, "ij", dtype="f8")),
+        ("x:ij,x:ji", lambda: da.blockwise(operator.add, "ij", x, "ij", x, "ji", dtype="f8")),
+        ("out:ji", lambda: da.blockwise(operator.add, "ji", x, "ij", x, "ij", dtype="f8")),
+        ("x13:ij,x13:ij", lambda: da.blockwise(operator.add, "ij", x13, "ij", x13, "ij", dtype="f8")),
+        ("dtype=f4", lambda: da.blockwise(operator.add, "ij", x, "ij", x, "ij", dtype="f4")),
+        ("concatenate", lambda: da.blockwise(lambda a: a.sum(axis=1), "i", x, "ij", dtype="f8", concatenate=True)),
+        ("concatenate:axis0", lambda: da.blockwise(lambda a: a.sum(axis=0), "j", x, "ij", dtype="f8", concatenate=True)),
+        ("new_axes:2", lambda: da.blockwise(lambda a: np.stack([a, a], -1), "ijk", x, "ij", dtype="f8", new_axes={"k": 2})),
+        ("new_axes:2b", lambda: da.blockwise(lambda a: np.stack([a, a], -1), "ijk", x, "ij", dtype="f8", new_axes={"k": (1, 1)})),
+        ("adjust_chunks:a", lambda: da.blockwise(lambda a: a[:1], "ij", x, "ij", dtype="f8", adjust_chunks={"i": 1})),
+        ("adjust_chunks:b", lambda: da.blockwise(lambda a: a[:, :1], "ij", x, "ij", dtype="f8", adjust_chunks={"j": 1})),
+        ("kw:1", lambda: da.blockwise(sc, "ij", x, "ij", dtype="f8", k=1.0)),
+        ("kw:2", lambda: da.blockwise(sc, "ij", x, "ij", dtype="f8", k=2.0)),
+        ("lit:2", lambda: da.blockwise(sc, "ij", x, "ij", 2.0, None, dtype="f8")),
+        ("lit:3", lambda: da.blockwise(sc, "ij", x, "ij", 3.0, None, dtype="f8")),
+    ]
+    fams["reductions"] = [(f"{fn},axis={ax},keepdims={kd},se={se}", (lambda fn=fn, ax=ax, kd=kd, se=se: getattr(da, fn)(x13, axis=ax, keepdims=kd, split_every=se)))
+                          for fn in ("sum", "max", "mean", "argmax") for ax in (0, 1) for kd in (False, True) for se in (None, 2)
+                          if not (fn == "argmax" and kd)]
+    fams["reductions"] += [(f"sum,axis={ax}", (lambda ax=ax: x.sum(axis=ax))) for ax in (None, (0, 1), (1,), (0,))]
+    fams["cumulative"] = [(f"{fn},axis={ax},{m}", (lambda fn=fn, ax=ax, m=m: getattr(da, fn)(x13, axis=ax, method=m)))
+                          for fn in ("cumsum", "cumprod") for ax in (0, 1) for m in ("sequential", "blelloch")]
+    fams["rechunk"] = [(f"{src_name}->{c}", (lambda src=src, c=c: (src + 1).rechunk(c)))
+                       for src_name, src in (("x", x), ("x13", x13)) for c in ((2, 2), ((1, 3), (2, 2)), ((3, 1), (2, 2)), (4, 1), (1, 4), ((2, 2), (1, 3)))]
+    fams["from_array"] = [(f"chunks={c},off={off}", (lambda c=c, off=off: da.from_array(xn + off, chunks=c)))
+                          for off in (0.0, 1.0) for c in ((2, 2), ((1, 3), (2, 2)), ((3, 1), (2, 2)), ((2, 2), (3, 1)), (4, 4))]
+    fams["from_array:regions"] = [(f"[{a}:{b}]", (lambda a=a, b=b: w[a:b] + 1)) for a, b in itertools.product((0, 1, 4), (8, 9, 12))]
+    fams["from_array:regions"] += [(f"[{a}:{b}:2]", (lambda a=a, b=b: w[a:b:2] + 1)) for a, b in ((0, 8), (1, 9), (0, 12))]
+    fams["slicing"] = [(repr(ix), (lambda ix=ix: (x13 + 1)[ix])) for ix in
+                       ((slice(0, 2),), (slice(1, 3),), (slice(None), slice(0, 2)), (0,), (1,), (slice(None), 0), (slice(None, None, 2),),
+                        ([0, 2],), ([2, 0],), (slice(None), [0, 2]), (None,), (slice(None), None))]
+    fams["transpose-like"] = [("T", lambda: (x13 + 1).T), ("transpose(0,1)", lambda: (x13 + 1).transpose(0, 1)), ("swapaxes", lambda: da.swapaxes(x13 + 1, 0, 1)),
+                              ("flip0", lambda: da.flip(x13 + 1, 0)), ("flip1", lambda: da.flip(x13 + 1, 1)),
+                              ("roll0", lambda: da.roll(x13 + 1, 1, 0)), ("roll1", lambda: da.roll(x13 + 1, 1, 1)), ("roll2", lambda: da.roll(x13 + 1, 2, 0))]
+    fams["shape-ops"] = [("reshape(16)", lambda: (x + 1).reshape(16)), ("reshape(2,8)", lambda: (x + 1).reshape(2, 8)), ("reshape(8,2)", lambda: (x + 1).reshape(8, 2)),
+                         ("ravel", lambda: (x + 1).ravel()), ("bc(2,4,4)", lambda: da.broadcast_to(x + 1, (2, 4, 4))), ("bc(3,4,4)", lambda: da.broadcast_to(x + 1, (3, 4, 4))),
+                         ("repeat0", lambda: da.repeat(x + 1, 2, axis=0)), ("repeat1", lambda: da.repeat(x + 1, 2, axis=1)),
+                         ("tile", lambda: da.tile(x + 1, 2)), ("expand0", lambda: da.expand_dims(x + 1, 0)), ("expand2", lambda: da.expand_dims(x + 1, 2))]
+    fams["concat-stack"] = [(f"{fn}{ax}{order}", (lambda fn=fn, ax=ax, order=order: getattr(da, fn)([x, x13][::order], axis=ax)))
+                            for fn in ("concatenate", "stack") for ax in (0, 1) for order in (1, -1)]
+    fams["overlap"] = [(f"depth={d},boundary={b}", (lambda d=d, b=b: da.map_overlap(sc, x13, depth=d, boundary=b, dtype="f8")))
+                       for d in (1, {0: 1, 1: 0}, {0: 0, 1: 1}) for b in ("reflect", "nearest", "none", 0.0)]
+    fams["creation"] = [("ones(6,c3)", lambda: da.ones((6,), chunks=3)), ("ones(6,c(2,4))", lambda: da.ones((6,), chunks=((2, 4),))), ("ones(6,c(4,2))", lambda: da.ones((6,), chunks=((4, 2),))),
+                        ("zeros(6,c3)", lambda: da.zeros((6,), chunks=3)), ("full2", lambda: da.full((6,), 2.0, chunks=3)), ("full3", lambda: da.full((6,), 3.0, chunks=3)),
+                        ("ones-i8", lambda: da.ones((6,), chunks=3, dtype="i8")),
+                        ("arange6", lambda: da.arange(6, chunks=3)), ("arange(1,7)", lambda: da.arange(1, 7, chunks=3)), ("arange6c(2,4)", lambda: da.arange(6, chunks=((2, 4),))),
+                        ("arange6c(4,2)", lambda: da.arange(6, chunks=((4, 2),))), ("arange(0,12,2)", lambda: da.arange(0, 12, 2, chunks=3)),
+                        ("linspace(0,1,6)", lambda: da.linspace(0, 1, 6, chunks=3)), ("linspace(0,2,6)", lambda: da.linspace(0, 2, 6, chunks=3)),
+                        ("linspace(0,1,6,noend)", lambda: da.linspace(0, 1, 6, chunks=3, endpoint=False)),
+                        ("eye4", lambda: da.eye(4, chunks=2)), ("eye4k1", lambda: da.eye(4, chunks=2, k=1)), ("eye4x6", lambda: da.eye(4, chunks=2, M=6)),
+                        ("tri4", lambda: da.tri(4, chunks=2)), ("tri4k1", lambda: da.tri(4, k=1, chunks=2))]
+    fams["elemwise"] = [("x+v", lambda: x + v), ("v+x", lambda: v + x), ("x-v", lambda: x - v), ("x+v[:,None]", lambda: x + v[:, None]), ("x13+v", lambda: x13 + v),
+                        ("where", lambda: da.where(x > 3, x, v)), ("where-swapped", lambda: da.where(x > 3, v, x)), ("clip(0,5)", lambda: da.clip(x, 0, 5)), ("clip(0,6)", lambda: da.clip(x, 0, 6)),
+                        ("astype-f4", lambda: x.astype("f4")), ("astype-i8", lambda: x.astype("i8")), ("add-out-dtype", lambda: da.add(x, v, dtype="f4"))]
+    fams["map_blocks"] = [("k=1", lambda: x.map_blocks(sc, k=1.0, dtype="f8")), ("k=2", lambda: x.map_blocks(sc, k=2.0, dtype="f8")), ("x13,k=1", lambda: x13.map_blocks(sc, k=1.0, dtype="f8")),
+                          ("drop0", lambda: x.map_blocks(lambda b: b.sum(axis=0), drop_axis=0, dtype="f8")), ("drop1", lambda: x.map_blocks(lambda b: b.sum(axis=1), drop_axis=1, dtype="f8")),
+                          ("new0", lambda: x.map_blocks(lambda b: b[None], new_axis=0, dtype="f8")), ("new2", lambda: x.map_blocks(lambda b: b[..., None], new_axis=2, dtype="f8")),
+                          ("chunks(1,2)", lambda: x.map_blocks(lambda b: b[:1], chunks=(1, 2), dtype="f8")), ("chunks(2,1)", lambda: x.map_blocks(lambda b: b[:, :1], chunks=(2, 1), dtype="f8"))]
+    fams["windows"] = [(f"swv({wd},{ax})", (lambda wd=wd, ax=ax: da.sliding_window_view(x13 + 1, wd, axis=ax))) for wd in (2, 3) for ax in (0, 1)]
+    fams["take-like"] = [("take[0,2]a0", lambda: da.take(x13 + 1, [0, 2], axis=0)), ("take[0,2]a1", lambda: da.take(x13 + 1, [0, 2], axis=1)), ("take[2,0]a0", lambda: da.take(x13 + 1, [2, 0], axis=0)),
+                         ("diag0", lambda: da.diagonal(x13 + 1)), ("diag1", lambda: da.diagonal(x13 + 1, 1)), ("diag-1", lambda: da.diagonal(x13 + 1, -1)),
+                         ("tril", lambda: da.tril(x13 + 1)), ("triu", lambda: da.triu(x13 + 1)), ("tril1", lambda: da.tril(x13 + 1, 1))]
+    import gc
+    # phase 1: every member built ALONE (the previous one dropped and collected first, so no registry can substitute it)
+    solo = {}
+    for fam, members in fams.items():
+        for label, mk in members:
+            try:
+                with warnings.catch_warnings():
+                    warnings.simplefilter("ignore")
+                    a = mk()
+                    solo[(fam, label)] = (a.name, repr(a.chunks), str(a.dtype), np.asarray(a.compute(scheduler="sync")))
+            except Exception as e:  # noqa: BLE001
+                chk.count(f"near-miss:skipped:{fam}:{type(e).__name__}")
+            a = None
+            gc.collect()
+    # phase 2: all members of a family alive together
+    for fam, members in fams.items():
+        built = []
+        for label, mk in members:
+            if (fam, label) not in solo:
+                continue
+            try:
+                with warnings.catch_warnings():
+                    warnings.simplefilter("ignore")
+                    a = mk()
+                    val = np.asarray(a.compute(scheduler="sync"))
+                    forms = {"raw": a.expr, **exprs.phases(a.expr)}
+                    low = a._lowered_expr
+            except Exception as e:  # noqa: BLE001
+                chk.count(f"near-miss:skipped-together:{fam}:{type(e).__name__}")
+                continue
+            built.append((label, a, val))
+            chk.count("near-miss:" + fam.split(":")[0])
+            chk.case(("near-miss", fam, label), nontrivial=True)
+            sname, schunks, sdtype, sval = solo[(fam, label)]
+            if repr(a.chunks) != schunks or str(a.dtype) != sdtype or val.shape != sval.shape or not np.array_equal(val, sval, equal_nan=True):
+                other = [l2 for l2, b, _ in built[:-1] if b.name == a.name]
+                chk.violation(f"{fam}: {label} built while {other or 'other family members'} are alive is not the array it is when built alone "
+                              f"(chunks {a.chunks} vs {schunks}; values {'equal' if val.shape == sval.shape and np.array_equal(val, sval, equal_nan=True) else 'differ'}): "
+                              "de-duplication by name substituted a different computation",
+                              {"family": fam, "member": label, "name": a.name, "alive_with_same_name": other, "chunks_now": repr(a.chunks), "chunks_alone": schunks},
+                              signature={"class": "node-name-collision", "cls": type(a.expr).__name__, "via": "near-miss:" + fam.split(":")[0]})
+            for e in forms.values():
+                for node in e.walk():
+                    if isinstance(node, ArrayExpr):
+                        tie.fingerprint(node, f"{fam}/{label}")
+            tie.add(list(forms.values()) + [low], f"{fam}/{label}", raw=a.expr, lowered=low)
+        for (l1, a, va), (l2, b, vb) in itertools.combinations(built, 2):
+            s1, s2 = solo[(fam, l1)], solo[(fam, l2)]
+            if s1[0] != s2[0]:
+                continue
+            chk.count("near-miss:pairs-sharing-a-name")
+            if s1[1:3] != s2[1:3] or s1[3].shape != s2[3].shape or not np.array_equal(s1[3], s2[3], equal_nan=True):
+                chk.violation(f"{fam}: {l1} and {l2} get ONE name ({s1[0]}) but, built alone, differ in "
+                              + ("chunks " if s1[1] != s2[1] else "") + ("dtype " if s1[2] != s2[2] else "")
+                              + ("values" if s1[3].shape != s2[3].shape or not np.array_equal(s1[3], s2[3], equal_nan=True) else ""),
+                              {"family": fam, "first": l1, "second": l2, "name": s1[0], "chunks": [s1[1], s2[1]]},
+                              signature={"class": "node-name-collision", "cls": type(a.expr).__name__, "via": "near-miss:" + fam.split(":")[0]})
+            else:
+                chk.traces_validated += 1
+
+
 def _run(chk: Check):
     import dask_array as da
     from dask_array._expr import ArrayExpr
@@ -247,7 +406,8 @@ def _run(chk: Check):
                 "(class, shape, dtype, chunks); every graph key of every program is executed and registered with a hash of its value; a "
                 "name or key seen with two different fingerprints is a violation; non-trivial = name/key seen more than once.  "
                 "Model tie: every node of every form (and of targeted probes: draws from one rng object, nodes that differ only in an operand "
-                "the tokenizer omits, exact-named FromArray regions/rechunks, auto chunks under two configs) is (a) fingerprinted in Python "
+                "the tokenizer omits, exact-named FromArray regions/rechunks, auto chunks under two configs, and ~20 near-miss families of API calls "
+                "differing in one ingredient: chunk boundaries at equal block count, index labels, axes, keywords) is (a) fingerprinted in Python "
                 "(class, operands minus the omitted ones, children's names, chunks, dtype): equal names <=> equal fingerprints both ways, and "
                 "(b) reified into coq/theories/Names.v; Coq checks that the model's names and tokens (executable injective hash) have exactly "
                 "the equality pattern of the real _name / deterministic_token strings")
@@ -260,6 +420,7 @@ def _run(chk: Check):
                        "(violated across config changes, known finding C06-B)"]
     tie = ModelTie(chk)
     probe_pairs(chk, tie, da)
+    near_miss_families(chk, tie, da)
     names = {}      # _name -> (meta, class, program)
     keys = {}       # graph key -> (value fingerprint, program)
     seen_twice = 0
